@@ -375,6 +375,26 @@ func (s *session) exec(line string) (string, error) {
 		}
 		out := method(a, "Equals").Call([]reflect.Value{b})
 		return "ok " + b01(out[0].Bool()), nil
+	case "weqg":
+		// wire.ValuesAreEqual(a.ToWire(), b.ToWire())
+		t, rt, a, rest, err := s.parseTG(toks[1:])
+		if err != nil {
+			return "", orBad(err)
+		}
+		gb, rest, err := gtext.ParseG(rest)
+		if err != nil || len(rest) != 0 {
+			return "", orBad(err)
+		}
+		b, err := s.build(t, rt, gb)
+		if err != nil {
+			return "", err
+		}
+		wa := method(a, "ToWire").Call(nil)
+		wb := method(b, "ToWire").Call(nil)
+		if asErr(wa[1]) != nil || asErr(wb[1]) != nil {
+			return "err", nil
+		}
+		return "ok " + b01(wire.ValuesAreEqual(wa[0].Interface().(wire.Value), wb[0].Interface().(wire.Value))), nil
 	case "weq":
 		a, rest, err := parseWire(toks[1:])
 		if err != nil {
